@@ -110,15 +110,32 @@ Definition env_ok (G : nat -> option ty) (R : nat -> rty) : Prop := forall n t, 
 Lemma has_type_unknown r : has_type r TUnknown = false.
 Proof. destruct r; reflexivity. Qed.
 
-Lemma dedupe_in ts t : In t (dedupe ts) -> In t ts.
+Lemma classes_ok_spec ts : classes_ok ts = true -> forall a b, In a ts -> In b ts -> same_class a b = true -> a = b.
 Proof.
-  induction ts as [|x r IH]; simpl; auto. intros [<-|H]; auto. apply filter_In in H. right. apply IH. tauto.
+  unfold classes_ok. intros H a b Ha Hb Hs. rewrite forallb_forall in H. specialize (H a Ha). rewrite forallb_forall in H. specialize (H b Hb).
+  rewrite Hs in H. cbn [negb orb] in H. apply ty_eqb_eq. exact H.
 Qed.
-Lemma in_dedupe ts t : In t ts -> In t (dedupe ts).
+
+Lemma last_of_class_same t r : (forall u, In u r -> same_class t u = true -> u = t) -> last_of_class t r = t.
 Proof.
-  induction ts as [|x r IH]; simpl; auto. intros [<-|H]; auto.
-  destruct (ty_eqb x t) eqn:E; [apply ty_eqb_eq in E; auto|].
-  right. apply filter_In. split; auto. rewrite E. reflexivity.
+  revert t. induction r as [|u r IH]; intros t H; [reflexivity|]. cbn [last_of_class].
+  destruct (same_class t u) eqn:E.
+  - rewrite (H u (or_introl eq_refl) E). apply IH. intros v Hv. apply H. right. exact Hv.
+  - apply IH. intros v Hv. apply H. right. exact Hv.
+Qed.
+
+(* under the guard of list literals every element type is kept *)
+Lemma in_dedupe ts t : classes_ok ts = true -> In t ts -> In t (dedupe ts).
+Proof.
+  intros Hok. pose proof (classes_ok_spec ts Hok) as Hs. clear Hok.
+  induction ts as [|x r IH]; [intros []|]. intros Hin. cbn [dedupe].
+  assert (last_of_class x r = x) as El.
+  { apply last_of_class_same. intros u Hu Hc. symmetry. apply (Hs x u); [left; reflexivity|right; exact Hu|exact Hc]. }
+  rewrite El. destruct Hin as [<-|Hin]; [left; reflexivity|].
+  destruct (same_class x t) eqn:E.
+  - left. apply (Hs x t); [left; reflexivity|right; exact Hin|exact E].
+  - right. apply filter_In. split; [|rewrite E; reflexivity].
+    apply IH; [|exact Hin]. intros a b Ha Hb. apply Hs; right; assumption.
 Qed.
 
 Lemma tuple_has_type ts : forall rs, has_type (RTuple rs) (TTuple ts) = true <-> Forall2 (fun r t => has_type r t = true) rs ts.
@@ -196,12 +213,13 @@ Proof.
       * rewrite (IHb G R t2 Henv Eb Hgb r Hr). rewrite orb_true_r. reflexivity.
   - (* EList *)
     cbn [infer guard dyn] in *. destruct Hr as [<-|[]].
-    set (go := fix go (l : list expr) : option (list ty) := match l with [] => Some [] | x :: r => match infer' G x, go r with Some t, Some ts => Some (t :: ts) | _, _ => None end end) in Hinf.
+    set (go := fix go (l : list expr) : option (list ty) := match l with [] => Some [] | x :: r => match infer' G x, go r with Some t, Some ts => Some (t :: ts) | _, _ => None end end) in Hinf, Hg.
     set (gg := fix go (l : list expr) : bool := match l with [] => true | x :: r => guard' G x && go r end) in Hg.
+    apply andb_true_iff in Hg as [Hg Hcls].
     destruct (go es) as [ts|] eqn:Ego; try discriminate.
     assert (Hall : forall t0, (forall u, In u ts -> u = t0 \/ u = TUnknown) -> forallb (fun e => has_type e t0) (flat_map (dyn R) es) = true).
     { intros t0 Hts. apply forallb_forall. intros x Hx. apply in_flat_map in Hx. destruct Hx as [e [He Hx]].
-      clear Hinf. revert ts Ego Hts Hg. induction IH as [|e0 es0 He0 _ IHes]; intros ts Ego Hts Hg; [destruct He|].
+      clear Hinf Hcls. revert ts Ego Hts Hg. induction IH as [|e0 es0 He0 _ IHes]; intros ts Ego Hts Hg; [destruct He|].
       simpl in Ego, Hg. apply andb_true_iff in Hg. destruct Hg as [Hg0 Hgr].
       destruct (infer' G e0) as [u|] eqn:Eu; try discriminate. destruct (go es0) as [us|] eqn:Eus; try discriminate. injection Ego as <-.
       destruct He as [<-|He].
@@ -210,7 +228,7 @@ Proof.
       - eapply IHes; eauto. intros u0 Hu0. apply Hts. right. exact Hu0. }
     assert (Hunion : forall us, (forall u, In u ts -> In u us \/ u = TUnknown) -> forallb (fun e => has_type e (TUnion us)) (flat_map (dyn R) es) = true).
     { intros us Hts. apply forallb_forall. intros x Hx. apply in_flat_map in Hx. destruct Hx as [e [He Hx]].
-      clear Hinf Hall. revert ts Ego Hts Hg. induction IH as [|e0 es0 He0 _ IHes]; intros ts Ego Hts Hg; [destruct He|].
+      clear Hinf Hall Hcls. revert ts Ego Hts Hg. induction IH as [|e0 es0 He0 _ IHes]; intros ts Ego Hts Hg; [destruct He|].
       simpl in Ego, Hg. apply andb_true_iff in Hg. destruct Hg as [Hg0 Hgr].
       destruct (infer' G e0) as [u|] eqn:Eu; try discriminate. destruct (go es0) as [us0|] eqn:Eus; try discriminate. injection Ego as <-.
       destruct He as [<-|He].
@@ -222,15 +240,15 @@ Proof.
     destruct (dedupe (filter (fun t => negb (ty_eqb t TUnknown)) ts)) as [|t1 [|t2 rest]] eqn:Ed; try discriminate; injection Hinf as <-.
     + apply (Hall TUnknown). intros u Hu. right.
       destruct (ty_eqb u TUnknown) eqn:Eu; [apply ty_eqb_eq; exact Eu|].
-      assert (In u (dedupe (filter (fun t => negb (ty_eqb t TUnknown)) ts))) by (apply in_dedupe, filter_In; rewrite Eu; auto).
+      assert (In u (dedupe (filter (fun t => negb (ty_eqb t TUnknown)) ts))) by (apply in_dedupe; [exact Hcls|apply filter_In; rewrite Eu; auto]).
       rewrite Ed in H. destruct H.
     + apply (Hall t1). intros u Hu.
       destruct (ty_eqb u TUnknown) eqn:Eu; [right; apply ty_eqb_eq; exact Eu|]. left.
-      assert (In u (dedupe (filter (fun t => negb (ty_eqb t TUnknown)) ts))) by (apply in_dedupe, filter_In; rewrite Eu; auto).
+      assert (In u (dedupe (filter (fun t => negb (ty_eqb t TUnknown)) ts))) by (apply in_dedupe; [exact Hcls|apply filter_In; rewrite Eu; auto]).
       rewrite Ed in H. destruct H as [<-|[]]. reflexivity.
     + apply (Hunion (t1 :: t2 :: rest)). intros u Hu.
       destruct (ty_eqb u TUnknown) eqn:Eu; [right; apply ty_eqb_eq; exact Eu|]. left.
-      rewrite <- Ed. apply in_dedupe, filter_In. rewrite Eu. auto.
+      rewrite <- Ed. apply in_dedupe; [exact Hcls|]. apply filter_In. rewrite Eu. auto.
   - (* ETuple *)
     cbn [infer guard dyn] in *.
     set (go := fix go (l : list expr) : option (list ty) := match l with [] => Some [] | x :: r => match infer' G x, go r with Some t, Some ts => Some (t :: ts) | _, _ => None end end) in Hinf.
